@@ -1303,4 +1303,153 @@ theorem impl_eq_elts (ρ : Env) : ∀ (elts : List Pat), supportedElts ρ elts =
     · exact impl_eq_elts ρ r h.2 q hq
 end
 
+/-! ## supported patterns are deterministic -/
+
+theorem itemMarks_cons (p : Pat) (fb : Option Lit) (r : List (Pat × Option Lit)) :
+    itemMarks ((p, fb) :: r) = (p.isRest, fb.isSome) :: itemMarks r := rfl
+
+theorem scan_one_plain : ∀ (r : List (Pat × Option Lit)) (cnt : Nat),
+    scanMarks (itemMarks r) 1 = some cnt → r.all (fun q => !q.1.isRest && q.2.isNone) = true
+  | [], _, _ => rfl
+  | (p, fb) :: r, cnt, h => by
+    rw [itemMarks_cons] at h
+    simp only [scanMarks] at h
+    cases hp : p.isRest with
+    | true => simp [hp] at h
+    | false =>
+      cases fb with
+      | some d => simp [hp] at h
+      | none =>
+        simp only [hp, Bool.false_eq_true, if_false, Option.isSome_none] at h
+        simp only [List.all_cons, hp, Bool.not_false, Option.isNone_none, Bool.and_self, Bool.true_and]
+        exact scan_one_plain r cnt h
+
+theorem scan_shape : ∀ (items : List (Pat × Option Lit)) (c0 cnt : Nat), c0 ≤ 1 →
+    scanMarks (itemMarks items) c0 = some cnt → detItemsShape items = true
+  | [], _, _, _, _ => rfl
+  | (p, fb) :: r, c0, cnt, h0, h => by
+    rw [itemMarks_cons] at h
+    simp only [scanMarks] at h
+    cases hp : p.isRest with
+    | true =>
+      simp only [detItemsShape, hp, if_true]
+      by_cases hc : c0 = 1
+      · simp [hp, hc] at h
+      · have hc0 : c0 = 0 := by omega
+        subst hc0
+        cases fb with
+        | some d => simp [hp] at h
+        | none =>
+          simp only [hp, if_true, Option.isSome_none, Bool.false_eq_true, if_false] at h
+          exact scan_one_plain r cnt (by simpa using h)
+    | false =>
+      simp only [detItemsShape, hp, Bool.false_eq_true, if_false]
+      simp only [hp, Bool.false_eq_true, if_false] at h
+      cases fb with
+      | none =>
+        simp only [Option.isSome_none, Bool.false_eq_true, if_false] at h
+        exact scan_shape r c0 cnt h0 h
+      | some d =>
+        simp only [Option.isSome_some, if_true] at h
+        by_cases hc : c0 = 1
+        · simp [hc] at h
+        · simp only [hc, if_false] at h
+          exact scan_shape r (c0 + 1) cnt (by omega) h
+
+theorem simple_kinds : ∀ (elts : List Pat), elts.all simpleElt = true →
+    countKind .free elts = (setNames elts).length ∧ countKind .rest elts = (restsElts elts).length ∧
+    elts.any isAlternatives = false := by
+  intro elts
+  induction elts with
+  | nil => intro _; simp [countKind, setNames, restsElts]
+  | cons p r ih =>
+    intro hs
+    simp only [List.all_cons, Bool.and_eq_true] at hs
+    obtain ⟨h1, h2, h3⟩ := ih hs.2
+    rw [countKind_cons, countKind_cons]
+    rcases simple_cases hs.1 with ⟨t, rfl⟩ | ⟨x, rfl⟩ | ⟨l, rfl⟩ | ⟨e, rfl⟩
+    · simp [eltKind, setNames, restsElts, restName, isAlternatives, h1, h2, h3]; omega
+    · simp [eltKind, setNames, restsElts, restName, isAlternatives, h1, h2, h3]; omega
+    · simp [eltKind, setNames, restsElts, restName, isAlternatives, h1, h2, h3]
+    · simp [eltKind, setNames, restsElts, restName, isAlternatives, h1, h2, h3]
+
+mutual
+theorem supported_det (ρ : Env) : ∀ (p : Pat), supported ρ p = true → det p = true
+  | .lit _, _ => rfl
+  | .name _, _ => rfl
+  | .rest _, _ => rfl
+  | .exprs _, _ => rfl
+  | .arr items, h => by
+    simp only [supported, Bool.and_eq_true] at h
+    simp only [det, Bool.and_eq_true]
+    refine ⟨?_, supported_detItems ρ items h.2⟩
+    cases hs : scanMarks (itemMarks items) 0 with
+    | none => rw [hs] at h; simp at h
+    | some cnt => exact scan_shape items 0 cnt (by omega) hs
+  | .tup attrs, h => by
+    simp only [supported, Bool.and_eq_true, decide_eq_true_eq] at h
+    simp only [det, Bool.and_eq_true, decide_eq_true_eq]
+    exact ⟨h.1.1, supported_detAttrs ρ attrs h.2⟩
+  | .dict ents, h => by
+    simp only [supported, Bool.and_eq_true, decide_eq_true_eq] at h
+    simp only [det, Bool.and_eq_true, decide_eq_true_eq]
+    exact ⟨h.1.1.1, supported_detEnts ρ ents h.2⟩
+  | .set elts, h => by
+    simp only [supported, Bool.and_eq_true] at h
+    obtain ⟨⟨hscan, hok⟩, hsub⟩ := h
+    simp only [det, Bool.and_eq_true, decide_eq_true_eq, Bool.not_eq_true']
+    refine ⟨?_, supported_detElts ρ elts hsub⟩
+    by_cases hs : elts.all simpleElt = true
+    · obtain ⟨h1, h2, h3⟩ := simple_kinds elts hs
+      obtain ⟨fws, hf⟩ := fixedValues_exists ρ elts hs (supportedElts_mem ρ elts hsub)
+      obtain ⟨_, hc2, hc3⟩ := elts_counts ρ elts fws hs hf
+      cases hsc : scanMarks (eltMarks elts) 0 with
+      | none => rw [hsc] at hscan; cases hscan
+      | some cnt =>
+        obtain ⟨hle, hcnt⟩ := scanMarks_some _ 0 cnt (by omega) hsc
+        rw [hc2, hc3] at hcnt
+        exact ⟨by omega, h3⟩
+    · have hs' : elts.all simpleElt = false := by simpa using hs
+      rw [List.all_eq_false] at hs'
+      obtain ⟨p, hp, hps⟩ := hs'
+      obtain ⟨hn, hc⟩ := eltOK_not_simple ((List.all_eq_true.1 hok) p hp) (by simpa using hps)
+      have : elts = [p] := by
+        cases elts with
+        | nil => simp at hp
+        | cons a r =>
+          cases r with
+          | nil => simp at hp; rw [hp]
+          | cons _ _ => simp at hn
+      subst this
+      cases p <;> simp [isComplex] at hc <;> simp [countKind, eltKind, isAlternatives]
+theorem supported_detItems (ρ : Env) : ∀ (items : List (Pat × Option Lit)),
+    supportedItems ρ items = true → detItems items = true
+  | [], _ => rfl
+  | (p, fb) :: r, h => by
+    simp only [supportedItems, Bool.and_eq_true] at h
+    simp only [detItems, Bool.and_eq_true]
+    exact ⟨supported_det ρ p h.1, supported_detItems ρ r h.2⟩
+theorem supported_detAttrs (ρ : Env) : ∀ (attrs : List (String × Pat × Option Lit)),
+    supportedAttrs ρ attrs = true → detAttrs attrs = true
+  | [], _ => rfl
+  | (n, p, fb) :: r, h => by
+    simp only [supportedAttrs, Bool.and_eq_true] at h
+    simp only [detAttrs, Bool.and_eq_true]
+    exact ⟨supported_det ρ p h.1, supported_detAttrs ρ r h.2⟩
+theorem supported_detEnts (ρ : Env) : ∀ (ents : List (Lit × Pat × Option Lit)),
+    supportedEnts ρ ents = true → detEnts ents = true
+  | [], _ => rfl
+  | (k, p, fb) :: r, h => by
+    simp only [supportedEnts, Bool.and_eq_true] at h
+    simp only [detEnts, Bool.and_eq_true]
+    exact ⟨supported_det ρ p h.1, supported_detEnts ρ r h.2⟩
+theorem supported_detElts (ρ : Env) : ∀ (elts : List Pat),
+    supportedElts ρ elts = true → detElts elts = true
+  | [], _ => rfl
+  | p :: r, h => by
+    simp only [supportedElts, Bool.and_eq_true] at h
+    simp only [detElts, Bool.and_eq_true]
+    exact ⟨supported_det ρ p h.1, supported_detElts ρ r h.2⟩
+end
+
 end Arrai.C09
